@@ -49,6 +49,8 @@ bool build_check(const std::string& prop, const std::string& tier, CheckSpec& s,
         s.batches.push_back(mk("wkd", q ? 32 : 2000, FAST, "single", {{"focus", 15}, {"wide", 1}, {"maxops", 9}}, "wide systems: parameters and keys with 12..80 slots through the store (length recovery from long buffers, free-slot arrays of dozens of entries)"));
         s.batches.push_back(mk("lq", 8, {"A/bmi2-adx", "B/portable64"}, "single", {{"hopenum", 1}}, "LQ-IBE objects: every embedded element x every invalid-encoding kind, both forms, validating and not"));
         s.batches.push_back(mk("lq", q ? 200 : 8000, FAST, "single", {}, "LQ-IBE histories with marshalling hops"));
+        s.batches.push_back(mk("wkd", q ? 16 : 800, {"C/portable32"}, "single", {{"focus", 15}, {"maxops", 10}}, "32-bit words: WKD-IBE objects through the store"));
+        s.batches.push_back(mk("lq", q ? 24 : 1000, {"C/portable32"}, "single", {}, "32-bit words: LQ-IBE objects through the store"));
         s.batches.push_back(mk("wkd", q ? 40 : 2000, FAST, "duo", {{"focus", 15}, {"maxops", 12}}, "marshalling hops by two concurrent caller threads"));
         s.batches.push_back(mk("lq", q ? 40 : 2000, FAST, "duo", {}, "LQ-IBE marshalling by two concurrent caller threads"));
         if (prop == "C17") {
@@ -117,6 +119,10 @@ bool build_check(const std::string& prop, const std::string& tier, CheckSpec& s,
         s.batches.push_back(mk("pairs", q ? 120 : 4000, FAST, "crossview", {}, "pairing products"));
         s.batches.push_back(mk("wkd", q ? 10 : 400, {"C/portable32"}, "crossview", {{"maxops", 10}}, "32-bit words"));
         s.batches.push_back(mk("wkd", q ? 16 : 600, FAST, "crossview", {{"wide", 1}, {"maxops", 8}}, "wide systems (12..80 slots)"));
+        s.batches.push_back(mk("sample", q ? 40 : 1500, {"C/portable32"}, "crossview", {}, "32-bit words: samplers, hashing, GT operations"));
+        s.batches.push_back(mk("lq", q ? 16 : 600, {"C/portable32"}, "crossview", {}, "32-bit words: LQ-IBE"));
+        s.batches.push_back(mk("enc", q ? 24 : 800, {"C/portable32"}, "crossview", {}, "32-bit words: encodings"));
+        s.batches.push_back(mk("pairs", q ? 12 : 400, {"C/portable32"}, "crossview", {}, "32-bit words: pairing products"));
         s.batches.push_back(mk("group", q ? 200 : 8000, ALL, "crossview", {}, "group and target-group API functions not used by the schemes (add, add_mixed, negate, double, multiply, equal, conversions, gt_add/negate/double/equal) incl. raw Fq12 inputs outside GT"));
         return true;
     }
